@@ -208,6 +208,15 @@ struct Exporter {
       if (VD->getType()->isReferenceType()) J.attribute("ref", VD->getType()->getPointeeType().isConstQualified() ? "c" : "r");
       if (VD->getType()->isScalarType()) J.attribute("scalar", true);
       if (VD->isStaticLocal()) J.attribute("static", true);
+      if (auto *PV = dyn_cast<ParmVarDecl>(VD)) {
+        // optional pointer parameter: declared with a null default argument (possibly on an earlier declaration)
+        if (PV->hasDefaultArg() && !PV->hasUnparsedDefaultArg() && !PV->hasUninstantiatedDefaultArg()) {
+          const Expr *DA = PV->getDefaultArg();
+          if (DA && PV->getType()->isPointerType() &&
+              DA->isNullPointerConstant(C, Expr::NPC_ValueDependentIsNotNull) != Expr::NPCK_NotNull)
+            J.attribute("defnull", true);
+        }
+      }
       auto DB = SM.getDecomposedLoc(SM.getFileLoc(VD->getLocation()));
       J.attribute("line", (int64_t)SM.getLineNumber(DB.first, DB.second));
       if (VD->hasInit()) {
